@@ -98,7 +98,7 @@ def rule_mirror(ctx):
             ]
         for title, extra, mod in cases:
             n += 1
-            paths = feed(p, lambda: make_client(p), lambda: base_stream() + extra())
+            paths = feed(p, lambda it: make_client(p, it=it), lambda: base_stream() + extra())
             ctx.paths_enumerated += len(paths)
             inst = f"client mirror[{kind}]"
             f = p.cls("indi.client.client.BaseClient").find_method("process_message")
@@ -135,7 +135,7 @@ def rule_mirror(ctx):
                     return "TypeError"  # b64decode(None)
             return None
 
-        paths = feed(p, lambda: make_client(p), stream, {"call_may_raise": raiser})
+        paths = feed(p, lambda it: make_client(p, it=it), stream, {"call_may_raise": raiser})
         f = p.cls("indi.client.elements.BLOB").find_method("set_value_from_message")
         for pa in paths:
             if pa.outcome != "return":
